@@ -208,59 +208,16 @@ func ruleStmtTable(c *Ctx, r *Report, rule string, spec *langSpec) {
 		r.bad(rule, "tables", err.Error(), "")
 		return
 	}
-	got := map[string]string{}
-	var order []string
-	for _, name := range []string{"decl", "stmt"} {
-		_, fd := c.find(name)
-		if fd == nil {
-			r.bad(rule, name, "function not found", "")
-			continue
-		}
-		ast.Inspect(fd.Body, func(n ast.Node) bool {
-			switch n := n.(type) {
-			case *ast.IfStmt:
-				if tok, ok := c.matchTok(n.Cond, "parser.match"); ok && len(n.Body.List) == 1 {
-					if es, ok := n.Body.List[0].(*ast.ExprStmt); ok {
-						if call, ok := es.X.(*ast.CallExpr); ok {
-							got[tok] = c.calleeName(call)
-							order = append(order, tok)
-						}
-					}
-				}
-			case *ast.SwitchStmt:
-				if n.Tag != nil {
-					return true
-				}
-				for _, a := range c.switchArms(n) {
-					target := ""
-					if len(a.Body) == 1 {
-						if es, ok := a.Body[0].(*ast.ExprStmt); ok {
-							if call, ok := es.X.(*ast.CallExpr); ok {
-								target = c.calleeName(call)
-							}
-						}
-					}
-					switch {
-					case a.Default:
-						got["default"] = target
-					case len(a.Exprs) == 1:
-						if tok, ok := c.matchTok(a.Exprs[0], "parser.match"); ok {
-							got[tok] = target
-							order = append(order, tok)
-						} else if be, ok := stripParens(a.Exprs[0]).(*ast.BinaryExpr); ok && c.fieldPath(be.X) == "<parser>.scope.depth" {
-							if k, isC := c.intConst(be.Y); isC && ((be.Op == token.GTR && k == 0) || (be.Op == token.GEQ && k == 1) || (be.Op == token.NEQ && k == 0)) {
-								got["depth>0"] = target
-								order = append(order, "depth>0")
-							}
-						} else {
-							got["?"+fmt.Sprint(len(got))] = target
-						}
-					}
-				}
-			}
-			return true
-		})
+	d, err := c.stmtDispatch(spec)
+	if err != nil {
+		r.bad(rule, "decl", err.Error(), "")
+		return
 	}
+	r.fn("decl")
+	for _, pr := range d.problems {
+		r.bad(rule, "dispatch", pr, d.pos)
+	}
+	got, order := d.got, d.order
 	for kw, fn := range spec.StmtKeywords {
 		tok := lt.Keywords[kw]
 		r.check(got[tok] == fn, rule, kw, fn, fmt.Sprintf("keyword %q dispatches to %q, documented %s", kw, got[tok], fn), "")
@@ -271,6 +228,15 @@ func ruleStmtTable(c *Ctx, r *Report, rule string, spec *langSpec) {
 	last := ""
 	if len(order) > 0 {
 		last = order[len(order)-1]
+	}
+	tested := map[string]bool{}
+	for _, t := range order {
+		tested[t] = true
+	}
+	for kw := range spec.StmtKeywords {
+		if !tested[lt.Keywords[kw]] {
+			last = "keyword " + kw + " is not tested before the bare-expression case"
+		}
 	}
 	r.check(last == "depth>0", rule, "order", "keywords are tested before the bare-expression case", "the bare-expression case must be the last test before the error default (order: "+strings.Join(order, ",")+")", "")
 	for k, v := range got {
@@ -517,6 +483,7 @@ func checkC17(c *Ctx, r *Report) {
 	}
 	ruleErrorIffDiagnostic(c, r, "error-iff-diagnostic")
 	ruleStmtTable(c, r, "stmt-table", spec)
+	ruleStickyTable(c, r, "token-adjacency")
 	ruleSemicolon(c, r, "semicolon")
 	ruleTokenTables(c, r, "token-tables", spec)
 	ruleSync(c, r, "sync", spec)
@@ -544,6 +511,7 @@ func checkC20(c *Ctx, r *Report) {
 	ruleNoLookback(c, r, "no-lookback")
 	ruleLexPrimitivesOnly(c, r, "lexer-primitives")
 	ruleCursorSteps(c, r, "cursor-steps")
+	ruleFullRune(c, r, "multibyte-layout-complete")
 	ruleSemicolon(c, r, "semicolon")
 	ruleTokenTables(c, r, "token-tables", spec)
 	// parentheses emit nothing themselves and nest through expr()
